@@ -1,6 +1,6 @@
 """C01 - xoshiro / xoroshiro / SplitMix64 equal the Blackman-Vigna reference."""
 from .. import terms as T
-from ..harness import Crate, State, Ref, ArrV, flat_leaves, Anchor, Unsupported, SymbolicLoop
+from ..harness import Crate, State, Ref, ArrV, Struct, flat_leaves, Anchor, Unsupported, SymbolicLoop
 from ..ref import xoshiro as REF
 from .linear import Gen, RNGCORE, SEEDABLE, describe_diff
 
@@ -49,7 +49,28 @@ def eval_from_seed(g, assume_fn=None, inline_zero=False):
     if assume_fn is not None:
         st.assume = tuple(assume_fn(leaves))
     ret = ev.call_body(st, key, [seed])
+    if assume_fn is not None and st.assume:
+        # the value under the stated assumption (a zero test written as a `match` on the decoded words is only recognised as
+        # the all-zero test once its branches are merged, i.e. after the fact)
+        from .. import loops as LP
+        ret = map_leaves(ret, lambda t: LP.simplify_under(ev, st, t))
     return ev, st, leaves, ret, body, key
+
+
+def map_leaves(v, fn):
+    if isinstance(v, T.T):
+        return fn(v)
+    if isinstance(v, Struct):
+        return Struct([map_leaves(f, fn) for f in v.fields])
+    if isinstance(v, ArrV) and v.base is None and v.n <= 64:
+        out = v
+        for i in range(v.n):
+            x = v.get(i)
+            y = map_leaves(x, fn)
+            if y is not x:
+                out = out.set(i, y)
+        return out
+    return v
 
 
 def allzero(leaves):
